@@ -38,6 +38,15 @@ INVALID = [
     [[], {"bg": 48}], [[None], {}], [["bold", "red", "green"], {}], [[], {"bg": "blue", "style": "on_red"}],
     [["boldd"], {}], [[], {"underlined": True}], [["on_"], {}], [[""], {}],
 ]
+# contradictory / mis-typed ones found by review of parse_args (a style named on and keyed off,
+# colour values of a type that cannot name a colour)
+INVALID += [[["bold"], {"bold": False}], [[], {"style": "underline", "underline": False}],
+            [[], {"fg": [31]}], [[], {"bg": {}}], [[], {"fg": 31.5}], [[], {"fg": True}], [[], {"bg": b"blue"}]]
+# unusual but meaningful values: ValueError or the obvious meaning (see kind "lenient")
+LENIENT = [[[], {"bold": 0}, {"bold": False}], [[], {"bold": None}, {"bold": False}], [[], {"underline": ""}, {"underline": False}],
+           [[], {"bold": 1}, {"bold": True}], [[], {"italic": "yes"}, {"italic": True}],
+           [[], {"fg": 31.0}, {"fg": "red"}], [[], {"bg": 44.0}, {"bg": "blue"}],
+           [["bold"], {"bold": True}, {"bold": True}], [["red"], {"invert": 0}, {"fg": "red", "invert": False}]]
 # upper/mixed-case names: the code lower-cases them for the membership test, so they are
 # either valid (and must format) or invalid (ValueError); anything else is a violation
 CASE_VARIANTS = [[["RED"], {}, {"fg": 31}], [["on_BLUE"], {}, {"bg": 44}], [["Red", "On_Blue"], {}, {"fg": 31, "bg": 44}],
@@ -239,12 +248,30 @@ def _run_case(ctx, case, rng):
         except Exception as ex:  # noqa
             ctx.judge(False, case, mech="C14:case-variant-name",
                       expected="formatted result or ValueError", got=repr(ex))
-    elif kind == "nonbool-style":
-        try:
-            r = fmtstr("ab", **case["kwargs"])
-            ctx.count("nonbool_style_accepted:%s" % repr(r))
-        except Exception as ex:  # noqa
-            ctx.count("nonbool_style_raises:%s" % type(ex).__name__)
+    elif kind == "lenient":
+        # a specification whose value has an unusual type: rejecting it with ValueError is right,
+        # and so is accepting it with its obvious meaning (truthiness for a style, the number for
+        # a colour) - but then the result has to display that meaning, coherently
+        args, kwargs, meaning = case["args"], case["kwargs"], case["meaning"]
+        for bname in ("plain", "red-bold"):
+            spec = [["ab", {} if bname == "plain" else {"fg": 31, "bold": True}]]
+            base = "ab" if bname == "plain" else obs.build(spec)
+            try:
+                r = fmtstr(base, *args, **dict(kwargs))
+            except ValueError:
+                ctx.judge(True, case, ("C14", "lenient", repr(args), repr(kwargs), bname, "rejected"))
+                ctx.count("unusual_value_rejected_with_ValueError")
+                continue
+            except Exception as ex:  # noqa
+                ctx.judge(False, case, mech="C14:invalid-other-exception", expected="ValueError or a formatted result",
+                          got=repr(ex))
+                continue
+            want = apply_algebra(obs.spec_cells(spec), meaning)
+            problems, got = obs.result_problems(r, want)
+            ctx.judge(not problems, case, ("C14", "lenient", repr(args), repr(kwargs), bname, "accepted"),
+                      "C14:unusual-value-accepted-with-wrong-effect", obs.show(want),
+                      obs.show(got) if got is not None else None, problems)
+            ctx.count("unusual_value_accepted")
     else:
         raise ValueError(kind)
 
@@ -280,8 +307,8 @@ def run(ctx):
             ctx.count("invalid_catalogue")
         for a, kw, atts in CASE_VARIANTS:
             run_case(ctx, {"kind": "casevariant", "args": a, "kwargs": kw, "atts": atts})
-        for kw in ({"bold": "yes"}, {"bold": 0}, {"bold": 1}, {"italic": None}):
-            run_case(ctx, {"kind": "nonbool-style", "kwargs": kw})
+        for a, kw, meaning in LENIENT:
+            run_case(ctx, {"kind": "lenient", "args": a, "kwargs": kw, "meaning": meaning})
     for _ in range(ctx.share(3000 if ctx.quick else 400000)):
         a = obs.rand_atts(rng)
         runs = [["".join(rng.choice("abc") for _ in range(rng.randint(0, 3))), dict(a)]
